@@ -51,6 +51,8 @@ type Solver struct {
 	tlimitMs int
 	dead     bool
 	scopes   []*scope
+	shared   []int
+	cursor   int
 }
 
 // SlowLog, if set, is called for queries slower than 2 s.
@@ -268,6 +270,10 @@ func (s *Solver) introduce(t *Term) {
 				// unrestricted: the regular-expression constraint costs cvc5 seconds per query
 				// on 32/64-character variables, no operation of the encoding distinguishes code
 				// points above 0xFF, and every model is replayed before it is reported.
+				if strings.Contains(x.S, "!alnum") {
+					s.send(fmt.Sprintf("(assert (not (str.contains %s \",\")))", n))
+					s.send(fmt.Sprintf("(assert (not (str.contains %s \";\")))", n))
+				}
 				if k, ok := fixedLenOfVar(x.S); ok {
 					s.send(fmt.Sprintf("(assert (= (str.len %s) %d))", n, k))
 				} else {
@@ -318,6 +324,46 @@ func (s *Solver) introduce(t *Term) {
 	visit(t)
 }
 
+// ---- assertions shared between consecutive paths of one worker
+//
+// Paths are explored by re-execution, and consecutive paths share most of their path
+// condition. Each path-condition conjunct is asserted in its own scope; a new path re-uses the
+// scopes whose conjuncts it reproduces (same term, same position) and pops the rest only when
+// it first diverges or first needs an answer from the solver.
+
+// BeginPath rewinds the cursor; nothing is sent to the solver.
+func (s *Solver) BeginPath() { s.cursor = 0 }
+
+// syncShared drops the scopes of the previous path beyond the cursor.
+func (s *Solver) syncShared() {
+	for len(s.shared) > s.cursor {
+		s.Pop()
+		s.shared = s.shared[:len(s.shared)-1]
+	}
+}
+
+// AssertShared adds a path-condition conjunct.
+func (s *Solver) AssertShared(t *Term) {
+	if s.cursor < len(s.shared) && s.shared[s.cursor] == t.ID {
+		s.cursor++
+		return
+	}
+	s.syncShared()
+	s.Push()
+	s.Assert(t)
+	s.shared = append(s.shared, t.ID)
+	s.cursor++
+}
+
+// ResetShared pops every shared scope (used after an aborted query left the stack unknown).
+func (s *Solver) ResetShared() {
+	for len(s.scopes) > 0 {
+		s.Pop()
+	}
+	s.shared = nil
+	s.cursor = 0
+}
+
 // Assert adds t to the current scope.
 func (s *Solver) Assert(t *Term) {
 	s.introduce(t)
@@ -327,6 +373,7 @@ func (s *Solver) Assert(t *Term) {
 // CheckSat decides the current scope plus extra (asserted in a temporary scope). wantModel
 // lists terms whose values to fetch on sat.
 func (s *Solver) CheckSat(extra []*Term, wantModel []*Term) (SatResult, map[int]string) {
+	s.syncShared()
 	s.Push()
 	for _, t := range extra {
 		s.Assert(t)
